@@ -13,6 +13,7 @@ import HpxVerif.Model.C2V
 import HpxVerif.Model.Once
 import HpxVerif.Model.Ring
 import HpxVerif.Model.Cover
+import HpxVerif.Model.SphGeom
 
 namespace Hpx.Driver
 
@@ -183,8 +184,20 @@ def onceOp (n : Nat) (sched : List Nat) : String :=
   let allDone := (List.range n).all fun t => s2.pc t == Once.PC.done true
   obs ++ s!"| final cons={s2.cons} all-returned-same-object={if allDone then 1 else 0}"
 
+def flPairs : List String → List (Float × Float)
+  | a :: b :: t => (fl a, fl b) :: flPairs t
+  | _ => []
+
 def stepRest (st : St) (toks : List String) : St × String :=
   match toks with
+  | "polygon" :: d :: _n :: rest =>
+    (st, optBmocLine (Sph.polygonCoverageApprox st.cfg (nat! d) (flPairs rest)))
+  | "polycontains" :: lon :: lat :: _n :: rest =>
+    (st, match Sph.Polygon.new st.debug (flPairs rest), Sph.fromSphCoo st.debug (fl lon) (fl lat) with
+      | some poly, some c => if poly.contains c then "1" else "0"
+      | _, _ => "panic")
+  | ["ellipse", d, dd, lon, lat, a, b, pa] =>
+    (st, optBmocLine (Sph.ellipticalConeCoverageCustom st.cfg (nat! d) (nat! dd) (fl lon) (fl lat) (fl a) (fl b) (fl pa)))
   | ["cone", d, dd, lon, lat, r] =>
     (st, optBmocLine (Cover.coneCoverageApproxCustom st.cfg (nat! d) (nat! dd) (fl lon) (fl lat) (fl r)))
   | ["rhash", n, lon, lat] => (st, optNat (Ring.hash st.debug (nat! n) (fl lon) (fl lat)))
